@@ -79,7 +79,7 @@ class JointModel(LogisticModel):
             raise LeaspyInputError(
                 "You cannot use a weibull with sources for an univariate model."
             )
-        if not self.has_observation_model_with_name("gaussian-scalar"):
+        if not any(obs_model.name == "y" for obs_model in self.obs_models):
             self.obs_models += (
                 observation_model_factory("gaussian-scalar", dimension=1),
             )
